@@ -1,6 +1,12 @@
-// ---- HashSet<NonZeroU16>: the key model vstd asks for (assumed: NonZeroU16's Hash/Eq are the u16 ones) ----
+// ---- assumed facts about core::num::NonZero* that vstd does not state ----
+//  * HashSet<NonZeroU16>: the key model vstd asks for (NonZeroU16's Hash/Eq are the u16 ones)
+//  * extensionality: a NonZero value is determined by get()
 pub mod vx_axioms {
     use vstd::prelude::*;
     pub broadcast axiom fn axiom_nonzero_u16_key_model()
         ensures #[trigger] vstd::std_specs::hash::obeys_key_model::<core::num::NonZeroU16>();
+    pub broadcast axiom fn axiom_nonzero_u16_ext(a: core::num::NonZeroU16, b: core::num::NonZeroU16)
+        ensures (#[trigger] a.get() == #[trigger] b.get()) <==> a == b;
+    pub broadcast axiom fn axiom_nonzero_u32_ext(a: core::num::NonZeroU32, b: core::num::NonZeroU32)
+        ensures (#[trigger] a.get() == #[trigger] b.get()) <==> a == b;
 }
